@@ -187,6 +187,52 @@ class Ctx:
                 return
         self.violations.append({'site': site, 'input_class': input_class, 'detail': detail, 'replay': replay})
 
+    # ---- sharding (one process per shard, results merged as plain data)
+    def export(self):
+        cov = dict(self.cov)
+        cov['functions_encoded'] = sorted(cov['functions_encoded'])
+        cov['models_used'] = sorted(cov['models_used'])
+        return {'cov': cov, 'violations': self.violations, 'known_hits': {('%s\x00%s' % k): v for k, v in self.known_hits.items()},
+                'inconclusive': self.inconclusive, 'replays': self.replay.count}
+
+    def merge(self, ex):
+        c = ex['cov']
+        for k in ('states', 'transitions', 'traces_validated_against_impl'):
+            self.cov[k] += c[k]
+        for k in ('unsat', 'sat', 'unknown'):
+            self.cov['queries'][k] += c['queries'][k]
+        self.cov['solver_s'] += c['solver_s']
+        self.cov['functions_encoded'] |= set(c['functions_encoded'])
+        self.cov['models_used'] |= set(c['models_used'])
+        for x in c['samples']:
+            self.sample(x)
+        for k, v in c['sub_checks'].items():
+            self.cov['sub_checks'][k] = self.cov['sub_checks'].get(k, 0) + v
+        self.violations.extend(ex['violations'])
+        for k, v in ex['known_hits'].items():
+            site, cls = k.split('\x00')
+            h = self.known_hits.setdefault((site, cls), {'n': 0, 'what': v['what']})
+            h['n'] += v['n']
+        self.inconclusive.extend(ex['inconclusive'])
+        self.replay.count += ex['replays']
+
+    def run_shards(self, fn, shards, procs=None):
+        """fn(sub_ctx, shard) in worker processes; shards: list of picklable descriptions"""
+        import multiprocessing as mp
+        self.prep()
+        self.replay.build()
+        procs = procs or int(os.environ.get('VERIF_PROCS', '0')) or min(16, os.cpu_count() or 4)
+        procs = max(1, min(procs, len(shards)))
+        args = [(self.prop, self.tier, self.seed, self._prep, fn.__module__, fn.__name__, sh) for sh in shards]
+        if procs == 1:
+            outs = [_shard_worker(a) for a in args]
+        else:
+            with mp.get_context('fork').Pool(procs) as pool:
+                outs = pool.map(_shard_worker, args, chunksize=1)
+        for o in outs:
+            self.merge(o)
+        self.cov['bounds']['shards'] = len(shards)
+
     def finish(self):
         wall = time.time() - self.t0
         cov = dict(self.cov)
@@ -231,6 +277,29 @@ class Ctx:
         print('%s tier=%s seed=%d paths=%d queries(unsat=%d sat=%d unknown=%d) native_replays=%d wall=%.1fs -> exit %d' % (
             self.prop, self.tier, self.seed, cov['states'], q['unsat'], q['sat'], q['unknown'], self.replay.count, wall, code))
         return code
+
+
+def _shard_worker(a):
+    prop, tier, seed, prep, mod, fname, shard = a
+    import importlib
+    from engine import Unsupported, PathLimit
+    sub = Ctx(prop, tier, seed)
+    sub._prep = prep
+    sub.replay.built = True
+    try:
+        m = sys.modules.get(mod) or sys.modules.get('__main__')
+        fn = getattr(m, fname, None)
+        if fn is None:
+            m = importlib.import_module(mod)
+            fn = getattr(m, fname)
+        fn(sub, shard)
+    except Inconclusive as e:
+        sub.inconclusive.append('shard %r: %s' % (shard, e))
+    except (Unsupported, PathLimit) as e:
+        sub.inconclusive.append('shard %r: %s: %s' % (shard, type(e).__name__, e))
+    except Exception as e:
+        sub.inconclusive.append('shard %r: internal error %r\n%s' % (shard, e, traceback.format_exc()[-1500:]))
+    return sub.export()
 
 
 def main(prop, body):
